@@ -325,7 +325,8 @@ type ULeafAs struct {
 
 func (e *ULeafAs) Error() string { return e.Msg }
 func (e *ULeafAs) As(target interface{}) bool {
-	if t, ok := target.(**ULeafPtr); ok {
+	// (answers by value: a ULeafAs without alternative declines)
+	if t, ok := target.(**ULeafPtr); ok && e.Alt != nil {
 		*t = e.Alt
 		return true
 	}
